@@ -9,6 +9,9 @@ COMMON_ASSUME = [
 META = {
     "C14": dict(
         level="proof",
+        technique="contract-based deductive verification: class invariant + per-method pre/postconditions on the real Element methods, VCs from the AST discharged by z3/cvc5; bounded reference-model enumeration as labelled stand-in",
+        level_text="Every obligation generated from the current source of Element.{__init__, set_values, set_lower_limits, set_upper_limits, set_fixed, __copy__, reset_parameter(s), get_*} is discharged for all states, all key sets and any number of keyword pairs; histories follow by induction (invariant + deterministic postconditions). set_label and Container copies are only bounded.",
+        level_note="floats as reals with +-inf constants, NaN excluded; typed arguments; set_label trusted at call sites; positional pairs proved for <=2 pairs; class defaults assumed consistent",
         explanation="Class invariant + per-method contracts on the real Element methods (AST re-read every run), setters proved for the keyword form with any number of keys (loop invariant over a ghost done-set) and for 0..2 positional pairs; callers (__copy__, reset_parameter(s), __init__) checked against the callee contracts. Bounded layer: exhaustive short call sequences against a dict reference model.",
         trusted_base=["Element.set_label (string predicates) is assumed at call sites and only checked by the bounded layer",
                       "positional-pair form proved for <=2 pairs only (concrete unrolling of the *args loop)"],
@@ -17,3 +20,14 @@ META = {
         abstracted=["f-string messages of raise statements", "type annotations", "docstrings"],
     ),
 }
+
+NOT_BUILT = "check not built yet in this session (planned, see DESIGN.md section 3)"
+NOT_APPLICABLE = {
+    "C10": "statistical calibration over an RNG distribution and heuristic optimisers: no pre/postcondition within reach of a deductive verifier implies it (DESIGN.md C10); sampling would be a different technique family",
+    "C17": "quantifies over worker schedules / process counts: this family has no model of multiprocessing; determinism of BLAS/lmfit internals is outside any function we can put under contract (DESIGN.md C17)",
+}
+for _p in ["C%02d" % i for i in range(1, 21)]:
+    if _p not in META and _p not in NOT_APPLICABLE:
+        NOT_APPLICABLE[_p] = NOT_BUILT
+
+FIX_COMMITS = ["0098309"]
